@@ -953,7 +953,10 @@ func compareLogicXEQ(left r.Element, right r.Element) (bool, error) {
 				if err != nil {
 					return false, err
 				}
-				return cmpVal, nil
+				// stop only when one entry differs
+				if !cmpVal {
+					return false, nil
+				}
 			}
 			return true, nil
 		}
